@@ -108,8 +108,10 @@ static bool relocateBytes(int c) {
   if (!amc::is_trivially_relocatable<Vec>::value) return false;
   unsigned char *from = gStore[c];
   unsigned char *to = from == gStoreA[c] ? gStoreB[c] : gStoreA[c];
+  VH_UNPOISON(to, sizeof(Vec));
   std::memcpy(to, from, sizeof(Vec));
   std::memset(from, 0xAB, sizeof(Vec));  // the source is abandoned: a stale pointer into it reads garbage
+  VH_POISON(from, sizeof(Vec));          // ... and under ASan any access to it is reported
   gStore[c] = to;
   return true;
 }
